@@ -109,7 +109,7 @@ PROPS = {
         "title": "Hash manager never loses, duplicates or strands a job; flush always drains",
         "variant": "default",
         "quick": {"cases": 30000},
-        "thorough": {"cases": 1200000},
+        "thorough": {"cases": 1200000, "opts": ["volumes=3"]},
         "rule": "rapidcheck stateful histories as C01 plus rejected submits (8%) and flushes at any point, all families, followed by a drain phase. Model-based "
                 "invariants after every call: a returned context is one the model says the manager holds (never returned twice), it is not marked processing, its "
                 "status is COMPLETE iff its last accepted segment had LAST else IDLE, held contexts <= documented lanes (synchronous families hold none), flush "
